@@ -241,6 +241,8 @@ pub fn liq_weights() -> Weights {
     w.block = 12;
     // the owner changes ratios in between (incl. values the engine must refuse)
     w.ecfg = 4;
+    // liquidation attempts 1-15 minutes after a move that puts the target below maintenance at the spot price only
+    w.lag = 4;
     w
 }
 
